@@ -9,8 +9,8 @@
     the extracted [ledger_check] judges every recorded trace. *)
 From Coq Require Import NArith List Bool String FMapPositive Permutation.
 From XV Require Import Gen.GenC18DomHeap Gen.GenC18Init.
-From XV Require Import C18.Spec18 C18.Model18 C18.Model18X C18.Model18A C18.Model18I.
-From XV Require Import C18.Proofs18a C18.Proofs18b C18.Proofs18c C18.Proofs18d C18.Proofs18e C18.Proofs18f.
+From XV Require Import C18.Spec18 C18.Model18 C18.Model18X C18.Model18A C18.Model18I C18.Model18M.
+From XV Require Import C18.Proofs18a C18.Proofs18b C18.Proofs18c C18.Proofs18d C18.Proofs18e C18.Proofs18f C18.Proofs18g.
 Import ListNotations.
 Local Open Scope N_scope.
 
@@ -241,6 +241,30 @@ Example initterm_run :
   (i_cnt st, i_mgr st, i_live st, i_log st) = (0, GmNone, false, [ECreate; EDestroy; ENewOwnMgr; ECreate; EDestroy; EDeleteMgr GmOwn]).
 Proof. vm_compute. reflexivity. Qed.
 
+(** message-loader strings (XMLMsgLoader::fLocale / fPath, set from the locale / nlsHome arguments of Initialize) and the
+    panic handler, for EVERY sequence of Initialize(user manager, DOM heap sizes, locale, nlsHome, panicHandler)/Terminate:
+    after the last matching Terminate no string and no panic handler is left (this extends T18_initterm_pristine to the
+    loader state);  while initialised each string is owned by the CURRENT global manager;  a string is never released
+    through a manager other than the one that allocated it (no foreign pointer reaches a later global manager);
+    strings allocated = strings released + strings live;  the Initialize/Terminate part of the state is the run of T18_initterm. *)
+Theorem T18_initterm_msgloader : forall rd cap d ops, 0 < cap ->
+  let st := mrun rd cap (mpristine d) ops in
+  (i_cnt (m_i st) = 0 -> m_loc st = None /\ m_nls st = None /\ m_ph st = None) /\
+  (forall g, m_loc st = Some g \/ m_nls st = Some g -> g = i_mgr (m_i st)) /\
+  (forall o v, In (EStrFree o v) (m_slog st) -> o = v) /\
+  sallocs (m_slog st) = (sfrees (m_slog st) + b2n (m_loc st) + b2n (m_nls st))%nat /\
+  m_i st = irun rd cap (pristine d) (map to_iop ops).
+Proof. exact msgloader_main. Qed.
+Print Assumptions T18_initterm_msgloader.
+
+Example msgloader_run :
+  let st := mrun None long_max (mpristine (1, 2, 3))
+              [MInit (Some 4) None true true false; MInit (Some 5) None true false true; MTerm; MTerm; MInit (Some 5) None false true true; MTerm] in
+  (m_loc st, m_nls st, m_slog st) =
+  (None, None, [EStrAlloc (GmUser 4); EStrAlloc (GmUser 4); EStrFree (GmUser 4) (GmUser 4); EStrFree (GmUser 4) (GmUser 4);
+                EStrAlloc (GmUser 5); EStrFree (GmUser 5) (GmUser 5)]).
+Proof. vm_compute. reflexivity. Qed.
+
 (** ---- 5. generated obligations (Gen/GenC18Init.v is rewritten from /repo on every run) --------------------- *)
 (** every initializeX() of XMLInitializer::initializeStaticData has its terminateX() in terminateStaticData, in
     exactly the reverse order *)
@@ -253,3 +277,10 @@ Theorem T18_init_globals_released :
   forallb (fun g => existsb (String.eqb g) globals_deleted && existsb (String.eqb g) globals_zeroed) globals_created = true.
 Proof. vm_compute. reflexivity. Qed.
 Print Assumptions T18_init_globals_released.
+
+(** every XMLMsgLoader::setX(argument) of Initialize (a string replicated with the global manager) has its
+    XMLMsgLoader::setX(0) in Terminate *)
+Theorem T18_init_msgloader_released :
+  forallb (fun f => existsb (String.eqb f) msgloader_reset) msgloader_set = true.
+Proof. vm_compute. reflexivity. Qed.
+Print Assumptions T18_init_msgloader_released.
